@@ -10,7 +10,7 @@
    by the correspondence check only); so is the equality engine =
    specification (Den.v), which the check tests on generated programs. *)
 From Coq Require Import ZArith NArith List Bool String.
-From Dwgrep Require Import Radix Value Words Tree Engine Build Quiet EngineProofs.
+From Dwgrep Require Import Radix Value Words Tree Engine Build Quiet EngineProofs BuildProofs.
 Import ListNotations.
 Local Open Scope Z_scope.
 
@@ -45,6 +45,24 @@ Proof. exact engine_stream. Qed.
 Theorem C01_quietb_quiet : forall m, quietb m = true -> quiet m.
 Proof. exact quietb_quiet. Qed.
 
+(* the hypotheses hold for EVERY program without format strings: what the builder
+   (build.cc / bindings.cc) produces is a pristine chain with pristine block bodies *)
+Theorem C01_built_programs_are_quiet : forall tc t m blks, wf_tree t = true -> build_program tc t = BOk (m, blks) ->
+  quiet m /\ Forall quiet blks.
+Proof. exact build_program_quiet. Qed.
+
+(* hence, for every such program: once pulled dry on one input, the engine is
+   exactly what it was before that input arrived *)
+Theorem C01_every_program_forgets : forall tc P t m blks, wf_tree t = true -> build_program tc t = BOk (m, blks) ->
+  forall f env sl s outs m' c' s', drains P blks f env m (LOrigin sl) s outs m' c' s' -> m' = m /\ c' = LOrigin None.
+Proof.
+  intros tc P t m blks W B f env sl s outs m' c' s' D.
+  destruct (build_program_quiet tc t m blks W B) as [Qm Qb].
+  exact (engine_forgets P blks Qb f env m sl s outs m' c' s' Qm D).
+Qed.
+
+Print Assumptions C01_built_programs_are_quiet.
+Print Assumptions C01_every_program_forgets.
 Print Assumptions C01_quietb_quiet.
 Print Assumptions C01_pull_invariant.
 Print Assumptions C01_pull_keeps_structure.
